@@ -123,7 +123,7 @@ def check_dedup_model(res, drv, out, enc):
 
 def run(out, drv, info):
     quick = out.tier == 'quick'
-    n_hist, n_ops = (120, 12) if quick else (1200, 30)
+    n_hist, n_ops = (120, 12) if quick else (1000, 30)
     out.rule = ('history cases as in C02 (own seed label), non-trivial = some snapshot whose data repeats a block inside itself or shares ≥ 1 chunk with data its family already '
                 'stores; de-duplication cases = file set with identical files / shared prefix / shared suffix at a shifted offset / block repeated inside a file / zero runs, '
                 '(min,max) from 5 settings, concurrency 1–8, first snapshot, repeats by owner / clone / shared-key user, independent-key user, modified data; '
@@ -148,6 +148,10 @@ def run(out, drv, info):
 
 
 def replay(path, drv):
+    return X.hard_exit(_replay(path, drv))
+
+
+def _replay(path, drv):
     d = json.load(open(path))
     rp = d.get('replay', d)
     if rp.get('kind') == 'history':
